@@ -1199,3 +1199,33 @@ Proof.
 Qed.
 End Main.
 End InHullR.
+
+(* ------------------------------------------------------------------------------------------ *)
+(* 1c. binary64: a NaN end point is rejected with ValueError (for every fuel)                    *)
+(* ------------------------------------------------------------------------------------------ *)
+From FT.proofs Require NumFLaws.
+
+Theorem ray2d_nan_end_point_raises
+  (z x zgrad xgrad : arr PrimFloat.float) (zend xend zsrc xsrc stepsize : PrimFloat.float)
+  (max_step : Z) (hg : bool) (fuel : nat) :
+  PrimFloat.is_nan zend = true \/ PrimFloat.is_nan xend = true ->
+  u_ray2d_v fuel z x zgrad xgrad zend xend zsrc xsrc stepsize max_step hg = Raise ValueError.
+Proof.
+  intros Hnan. apply ray2d_outside_raises. unfold hull2. cbn [nleb NumF].
+  destruct Hnan as [Hn|Hn].
+  - rewrite (NumFLaws.leb_nan_r zend _ Hn). reflexivity.
+  - rewrite (NumFLaws.leb_nan_r xend _ Hn). cbn [andb]. apply Bool.andb_false_r.
+Qed.
+
+Print Assumptions ray2d_core_outside.
+Print Assumptions ray2d_raises_value_error_iff.
+Print Assumptions ray2d_nan_end_point_raises.
+Print Assumptions ray2d_free_terminates.
+Print Assumptions ray2d_terminates.
+Print Assumptions ray2d_core_count_range.
+Print Assumptions ray2d_core_endpoints.
+Print Assumptions ray2d_1_endpoints.
+Print Assumptions ray2d_vertices_in_hull.
+Print Assumptions ray2d_vectorized_spec.
+Print Assumptions ray2d_vectorized_as_singles.
+Print Assumptions ray2d_list_raises_like_first_failing_single.
